@@ -35,6 +35,13 @@ theorem gen_gnbSumSens_eq (lo hi : ℝ)  : gen_gnbSumSens lo hi = PM.sumSens lo 
   simp only [PM.sumSens, PM.pmax, PM.pabs]
   split_ifs <;> simp_all only [max_def, abs_of_neg, abs_of_nonneg, not_lt, not_le] <;> first | rfl | (split_ifs <;> first | rfl | linarith) | linarith
 
+/-- `k_means.py:KMeans._update_centers` -/
+noncomputable def gen_kmSumSens (lo hi : ℝ) : ℝ := (max (max |lo| |hi|) (hi - lo))
+theorem gen_kmSumSens_eq (lo hi : ℝ)  : gen_kmSumSens lo hi = PM.sumSens lo hi := by
+  unfold gen_kmSumSens
+  simp only [PM.sumSens, PM.pmax, PM.pabs]
+  split_ifs <;> simp_all only [max_def, abs_of_neg, abs_of_nonneg, not_lt, not_le] <;> first | rfl | (split_ifs <;> first | rfl | linarith) | linarith
+
 /-- `linear_regression.py:_construct_regression_obj` -/
 noncomputable def gen_linLocalEps (ε : ℝ) (t d : ℕ) : ℝ := (ε / (((t : ℝ) + ((t : ℝ) * (d : ℝ))) + (((d : ℝ) * ((d : ℝ) + (1 : ℝ))) / (2 : ℝ))))
 theorem gen_linLocalEps_eq (ε : ℝ) (t d : ℕ)  : gen_linLocalEps ε t d = ε / ((t : ℝ) + (t : ℝ) * (d : ℝ) + (d : ℝ) * ((d : ℝ) + 1) / 2) := by
